@@ -21,10 +21,10 @@ type specCtx struct {
 	bound       map[string]Val // quantifier variables
 	results     []Val
 	resultNames []string
-	entryNames  bool // identifiers denote entry values of parameters (requires / old)
-	calleeOnly  bool // contract of another function: only binds, results and ghosts are visible
-	oldIsPre    bool // old() refers to ctx.old as a whole (pre-call state) and keeps caller locals
-	paramsEntry bool // postconditions: parameter names denote their values at entry
+	entryNames  bool         // identifiers denote entry values of parameters (requires / old)
+	calleeOnly  bool         // contract of another function: only binds, results and ghosts are visible
+	oldIsPre    bool         // old() refers to ctx.old as a whole (pre-call state) and keeps caller locals
+	paramsEntry bool         // postconditions: parameter names denote their values at entry
 	pkg         *ssa.Package // package whose scope resolves package-level names (the contract's own package)
 }
 
